@@ -30,7 +30,22 @@
     D8  findEdge / IsDistanceLess write their per-call overrides into the query's own options.
     D19 FullPolygon() has a nil index; ContainsPoint dereferences it (also reached by
         EmptyPolygon.Invert()).
+    D49 findEdgesInternal forwarded maxError to the target only when it was non-zero: an index target
+        (`MinDistanceToShapeIndexTarget`, which writes it into the options of its own query) kept the
+        value of an earlier call (repaired in /repo 3519f3b).
+    D51 the inner query of an index target caches indexNumEdges / indexCovering of the TARGET's index
+        and nothing ever resets them: after a shape is added to the target's index the target answers
+        from the stale covering (present on the current tree; found by work package c13targets).
   `Fixes` selects, per defect, the faithful behaviour (false) or the minimal repair (true).
+
+  TARGETS (s2/min_distance_targets.go).  Point / edge / cell targets are values without state.  An
+  index target owns a ShapeIndex and an EdgeQuery on it (`m.query`); what a call sees of it is
+    * `visitContainingShapes`: the live shapes of the target's index, read through `shapes`,
+    * `capBound()`: `m.index.Region().CapBound()` — builds the target's index, recomputed every time,
+    * `updateDistanceToEdge/Cell`: `m.query.opts.distanceLimit = dist; m.query.findEdge(…, m.query.opts)`,
+      the inner search with the inner option record, in which `setMaxError` / `setIncludeInteriors` /
+      `setUseBruteForce` wrote `maxError` / `includeInteriors` / `useBruteForce`.
+  Only min-distance targets are modelled (`maxBruteForceIndexSize` 30 / 30 / 30 / 25).
 -/
 namespace S2.History
 
@@ -40,10 +55,14 @@ structure Fixes where
   d5 : Bool   -- Reset also resets pendingAdditionsPos
   d8 : Bool   -- per-call option overrides are applied to a copy; e.opts restored
   d19 : Bool  -- FullPolygon gets an index
+  d49 : Bool  -- findEdgesInternal calls target.setMaxError on every query, also with maxError = 0
+  d51 : Bool  -- an index target drops the caches of its inner query at every call
 deriving DecidableEq, Repr
 
-def Fixes.none : Fixes := ⟨false, false, false, false⟩
-def Fixes.all : Fixes := ⟨true, true, true, true⟩
+def Fixes.none : Fixes := ⟨false, false, false, false, false, false⟩
+def Fixes.all : Fixes := ⟨true, true, true, true, true, true⟩
+/-- the repairs present in /repo (D51 is open) -/
+def Fixes.tree : Fixes := ⟨true, true, true, true, true, false⟩
 
 inductive Status | stale | updating | fresh
 deriving DecidableEq, Repr, Inhabited
@@ -181,11 +200,31 @@ structure EQAns where
   maxError : Lim
 deriving DecidableEq, Repr
 
+/-- what a call saw of an INDEX target (`MinDistanceToShapeIndexTarget`) -/
+structure TAns where
+  starts : Option (List Nat)     -- visitContainingShapes: target shapes whose chain starts were tested
+                                 -- (read through `m.index.shapes`; none: includeInteriors off)
+  cap : Option (List Nat)        -- capBound(): shapes in the cells of the (built) target index
+                                 -- (none: brute-force path, capBound not asked)
+  iopts : Opts                   -- the option object the target's own query searches with
+                                 -- (`single := *m.query.opts; single.MaxResults(1)`)
+  inner : Option EQAns           -- the inner search: visible target shapes + effective inner options
+                                 -- (none: no edge / cell distance was asked for)
+deriving DecidableEq, Repr
+
+/-- symbolic answer of a call: a function of (visible shapes of the queried index, effective options)
+    = `outer`, and of (visible shapes of the target's index, effective inner options of the target)
+    = `target` (`none` for the stateless point / edge / cell targets). -/
+structure Answer where
+  outer : EQAns
+  target : Option TAns
+deriving DecidableEq, Repr
+
 inductive Out
   | unit
   | id (n : Nat)                                   -- Add
   | seen (cells : List Nat)                        -- index query through a fresh query object
-  | eq (a : EQAns) (optsAfter : Opts)              -- EdgeQuery call; options as left behind
+  | eq (a : Answer) (optsAfter : Opts)             -- EdgeQuery call; options as left behind
   | loop (reversed originInside boundFor : Bool) (view : Option (List Nat))
   | poly (full : Bool) (inverted : Bool) (view : Option (List Nat))
   | outOfContract                                  -- EdgeQuery op without a valid query object
@@ -238,6 +277,161 @@ def eqCall (f : Fixes) (idx : Index) (q : EQ) (k : QKind) (thr : Nat) :
 
 /-- `EdgeQuery.Reset()` -/
 def EQ.reset (q : EQ) : EQ := { q with numEdges := 0, numEdgesLimit := 0, covering := none }
+
+/-! ### Targets -/
+
+inductive TKind | point | edge | cell | index
+deriving DecidableEq, Repr, Inhabited
+
+/-- `maxBruteForceIndexSize()` of the four min-distance targets -/
+def TKind.thr : TKind → Nat
+  | .index => 25
+  | _ => 30
+
+/-- the three fields of the inner option record that the target's setters write -/
+structure TOpts where
+  maxError : Lim
+  includeInteriors : Bool
+  useBruteForce : Bool
+deriving DecidableEq, Repr
+
+/-- a target OBJECT.  For `kind ≠ index` only `kind` matters (`idx`, `q` are never read or written). -/
+structure Target where
+  kind : TKind
+  idx : Index        -- m.index: the target's own ShapeIndex
+  q : EQ             -- m.query = NewClosestEdgeQuery(m.index, NewClosestEdgeQueryOptions());
+                     -- q.user (ghost): the defaults + what the CALLER configured through the setters
+deriving DecidableEq, Repr
+
+def addAll (i : Index) : List Shape → Index
+  | [] => i
+  | sh :: t => addAll (i.add sh).1 t
+
+/-- `ti := NewShapeIndex(); ti.Add(…)…; NewMinDistanceToShapeIndexTarget(ti)` (index not built) -/
+def Target.new (k : TKind) (shapes : List Shape) : Target :=
+  ⟨k, addAll Index.new (if k = .index then shapes else []), EQ.new Opts.default⟩
+
+def Target.inner (t : Target) : TOpts :=
+  ⟨t.q.opts.maxError, t.q.opts.includeInteriors, t.q.opts.useBruteForce⟩
+
+/-- `setIncludeInteriors(ii); setUseBruteForce(bf)` -/
+def Target.configure (t : Target) (ii bf : Bool) : Target :=
+  { t with q := { t.q with opts := { t.q.opts with includeInteriors := ii, useBruteForce := bf },
+                           user := { t.q.user with includeInteriors := ii, useBruteForce := bf } } }
+
+/-- what `findEdgesInternal` does with `target.setMaxError`:
+    repaired `targetTakesMaxError := e.target.setMaxError(opts.maxError)` on every query;
+    before 3519f3b `opts.maxError != zero && e.target.setMaxError(opts.maxError)` (short-circuit).
+    `setMaxError` of the index target: `m.query.opts.maxError = maxErr`. -/
+def Target.setMaxError (f : Fixes) (t : Target) (e : Lim) : Target :=
+  if f.d49 || e != Lim.zero then { t with q := { t.q with opts := { t.q.opts with maxError := e } } } else t
+
+/-- the option object the inner search of a call with effective outer options `o` runs with -/
+def Target.effInner (f : Fixes) (t : Target) (o : Opts) : Opts :=
+  { (t.setMaxError f o.maxError).q.opts with distanceLimit := o.distanceLimit, maxResults := 1 }
+
+/-- `updateDistanceToEdge / updateDistanceToCell` of the index target:
+    `m.query.opts.distanceLimit = dist.chordAngle()` (written through the pointer: stays),
+    `m.query.findEdge(NewMinDistanceTo{Edge,Cell}Target(…), m.query.opts)` (thr = 30). -/
+def Target.innerFind (f : Fixes) (t : Target) (lim : Lim) : Option (Target × Opts × EQAns) :=
+  let q : EQ := { t.q with opts := { t.q.opts with distanceLimit := lim } }
+  let o : Opts := { q.opts with maxResults := 1 }
+  let q' : EQ := if f.d8 then q else { q with opts := o }
+  match findEdgesCore f t.idx q' 30 o .single with
+  | none => none
+  | some (i, q'', a) => some ({ t with idx := i, q := q'' }, o, a)
+
+def hasEdges (shapes : List Shape) : Bool := numEdgesUpTo shapes 1 0 != 0
+
+/-- `setMaxError` as called by `findEdgesInternal`; with the repair of D51 (not in /repo) the target also
+    forgets what its query cached about the target's index -/
+def Target.prepare (f : Fixes) (t : Target) (e : Lim) : Target :=
+  let t := t.setMaxError f e
+  if f.d51 then { t with q := t.q.reset } else t
+
+/-- the edge-count cache of `findEdgesInternal` -/
+def EQ.count (q : EQ) (shapes : List Shape) (minOpt : Nat) : EQ :=
+  if minOpt > q.numEdgesLimit && q.numEdges ≥ q.numEdgesLimit then
+    { q with numEdges := numEdgesUpTo shapes minOpt 0, numEdgesLimit := minOpt }
+  else q
+
+def outerAns (rep : Report) (interiors : Option (List Nat)) (edges : List Nat) (o : Opts) : EQAns :=
+  ⟨rep, interiors, edges, o.maxResults, o.distanceLimit, o.maxError⟩
+
+/-- `findEdgesBruteForce` with an index target: every edge of index.shapes → target.updateDistanceToEdge -/
+def bruteT (f : Fixes) (idx : Index) (q : EQ) (t : Target) (o : Opts) (rep : Report)
+    (interiors tstarts : Option (List Nat)) : Option (Index × EQ × Target × Answer) :=
+  let io := { t.q.opts with distanceLimit := o.distanceLimit, maxResults := 1 }
+  if hasEdges idx.shapes then
+    match t.innerFind f o.distanceLimit with
+    | none => none
+    | some (t, io, ia) =>
+      some (idx, q, t, ⟨outerAns rep interiors (liveIds idx.shapes) o, some ⟨tstarts, none, io, some ia⟩⟩)
+  else
+    some (idx, q, t, ⟨outerAns rep interiors (liveIds idx.shapes) o, some ⟨tstarts, none, io, none⟩⟩)
+
+/-- `findEdgesOptimized` with an index target → initQueue: (no covering yet → e.iter = e.index.Iterator());
+    cb := target.capBound() = m.index.Region().CapBound() → m.index.Iterator(); `if cb.IsEmpty() { return }`;
+    covering (cached or initCovering); cells / edges → target.updateDistanceToCell / Edge -/
+def optT (f : Fixes) (idx : Index) (q : EQ) (t : Target) (o : Opts) (rep : Report)
+    (interiors tstarts : Option (List Nat)) : Option (Index × EQ × Target × Answer) :=
+  let io := { t.q.opts with distanceLimit := o.distanceLimit, maxResults := 1 }
+  let r2 : Option Index := if q.covering.isNone then maybeApplyUpdates f idx else some idx
+  match r2 with
+  | none => none
+  | some idx =>
+    match maybeApplyUpdates f t.idx with
+    | none => none
+    | some ti =>
+      let t := { t with idx := ti }
+      if ti.cells.isEmpty then
+        some (idx, q, t, ⟨outerAns rep interiors [] o, some ⟨tstarts, some [], io, none⟩⟩)
+      else
+        let qc : EQ × List Nat := match q.covering with
+          | some c => (q, c)
+          | none => ({ q with covering := some idx.cells }, idx.cells)
+        match t.innerFind f o.distanceLimit with
+        | none => none
+        | some (t, io, ia) =>
+          some (idx, qc.1, t, ⟨outerAns rep interiors qc.2 o, some ⟨tstarts, some ti.cells, io, some ia⟩⟩)
+
+/-- includeInteriors: target.visitContainingShapes ranges over m.index.shapes; every chain start / contained
+    reference point → NewContainsPointQuery(e.index) → e.index.Iterator() -/
+def interiorsT (f : Fixes) (idx : Index) (t : Target) (o : Opts) : Option (Index × Option (List Nat)) :=
+  if o.includeInteriors then
+    if (liveIds t.idx.shapes).isEmpty then some (idx, some [])
+    else (maybeApplyUpdates f idx).map fun i => (i, some i.cells)
+  else some (idx, none)
+
+/-- `findEdgesInternal(target, o)` + sort/truncate for an INDEX target `t` (`findEdgesCore` is the
+    same function for the stateless targets). -/
+def findEdgesT (f : Fixes) (idx : Index) (q : EQ) (t : Target) (o : Opts) (rep : Report) :
+    Option (Index × EQ × Target × Answer) :=
+  if o.distanceLimit == Lim.zero then
+    some (idx, q, t, ⟨outerAns rep none [] o, none⟩)
+  else
+    match interiorsT f idx t o with
+    | none => none
+    | some (idx, interiors) =>
+      let tstarts := if o.includeInteriors then some (liveIds t.idx.shapes) else none
+      let t := t.prepare f o.maxError
+      let minOpt := TKind.index.thr + 1
+      let q := q.count idx.shapes minOpt
+      if o.useBruteForce || q.numEdges < minOpt then bruteT f idx q t o rep interiors tstarts
+      else optT f idx q t o rep interiors tstarts
+
+/-- one public EdgeQuery call with the target OBJECT `t` -/
+def eqCallT (f : Fixes) (idx : Index) (q : EQ) (t : Target) (k : QKind) :
+    Option (Index × EQ × Target × Answer) :=
+  let o := k.override q.opts
+  let q' := if f.d8 then q else { q with opts := o }
+  match t.kind with
+  | .index => findEdgesT f idx q' t o k.report
+  | _ =>
+    -- setMaxError of the point / edge / cell targets: `return false`, nothing written
+    match findEdgesCore f idx q' t.kind.thr o k.report with
+    | none => none
+    | some (idx, q'', a) => some (idx, q'', t, ⟨a, none⟩)
 
 /-! ### Loop and Polygon -/
 
@@ -303,6 +497,7 @@ structure State where
   loop : LoopS
   poly : PolyS
   dead : Option Out      -- `some stuck` / `some panicked` once the process is lost
+  tgt : Option Target := none   -- the current target OBJECT (lives until the next `newTarget`)
 deriving DecidableEq, Repr
 
 inductive Op
@@ -310,10 +505,15 @@ inductive Op
   | newEQ (o : Opts) | call (k : QKind) (thr : Nat) | eqReset
   | invert | loopContains | loopCell
   | polyInvert | polyContains
+  -- targets: `call` above hands a NEW stateless target (brute-force threshold `thr`) to every call;
+  | newTarget (k : TKind) (shapes : List Shape)   -- a new target object (index targets: over a new index holding `shapes`)
+  | tadd (sh : Shape)                             -- Add on the index of the current index target
+  | tset (ii bf : Bool)                           -- setIncludeInteriors / setUseBruteForce of the current index target
+  | tcall (k : QKind)                             -- a call that uses the CURRENT target object
 deriving DecidableEq, Repr
 
 def State.init (f : Fixes) (loopVerts : Nat) (loopOrigin : Bool) (pk : PolyKind) (polyVerts : Nat) : State :=
-  ⟨Index.new, none, LoopS.new loopVerts loopOrigin, PolyS.new f pk polyVerts, none⟩
+  ⟨Index.new, none, LoopS.new loopVerts loopOrigin, PolyS.new f pk polyVerts, none, none⟩
 
 def die (s : State) (o : Out) : State × Out := ({ s with dead := some o }, o)
 
@@ -343,8 +543,30 @@ def stepV (f : Fixes) (s : State) (op : Op) : State × Out :=
     | none => (s, .outOfContract)
     | some q =>
       match eqCall f s.idx q k thr with
-      | some (i, q', a) => ({ s with idx := i, eq := some q' }, .eq a q'.opts)
+      | some (i, q', a) => ({ s with idx := i, eq := some q' }, .eq ⟨a, none⟩ q'.opts)
       | none => die s .stuck
+  | .newTarget k shapes => ({ s with tgt := some (Target.new k shapes) }, .unit)
+  | .tadd sh =>
+    match s.tgt with
+    | some t =>
+      if t.kind = .index then
+        let (i, n) := t.idx.add sh
+        ({ s with tgt := some { t with idx := i } }, .id n)
+      else (s, .outOfContract)
+    | none => (s, .outOfContract)
+  | .tset ii bf =>
+    match s.tgt with
+    | some t =>
+      if t.kind = .index then ({ s with tgt := some (t.configure ii bf) }, .unit)
+      else (s, .outOfContract)
+    | none => (s, .outOfContract)
+  | .tcall k =>
+    match s.eq, s.tgt with
+    | some q, some t =>
+      match eqCallT f s.idx q t k with
+      | some (i, q', t', a) => ({ s with idx := i, eq := some q', tgt := some t' }, .eq a q'.opts)
+      | none => die s .stuck
+    | _, _ => (s, .outOfContract)
   | .invert => ({ s with loop := s.loop.invert f }, .unit)
   | .loopContains =>
     let l := s.loop
@@ -387,6 +609,15 @@ def runV (f : Fixes) : State → List Op → State × List Out
 
 /-! ### The history-free specification: geometry + the caller's options, nothing else -/
 
+/-- a target as the caller knows it: kind, the shapes in its index, the two settings made through
+    setIncludeInteriors / setUseBruteForce (defaults true / false) -/
+structure TGeo where
+  kind : TKind
+  shapes : List Shape
+  ii : Bool
+  bf : Bool
+deriving DecidableEq, Repr
+
 structure Geo where
   shapes : List Shape
   user : Option Opts            -- options of the live query object, if any
@@ -396,11 +627,15 @@ structure Geo where
   polyKind : PolyKind
   polyVerts : Nat
   polyInverted : Bool
+  tgt : Option TGeo := none      -- the current target: geometry + what the caller configured
 deriving DecidableEq, Repr
+
+def Target.geo (t : Target) : TGeo :=
+  ⟨t.kind, t.idx.shapes, t.q.user.includeInteriors, t.q.user.useBruteForce⟩
 
 def abs (s : State) : Geo :=
   ⟨s.idx.shapes, s.eq.map (·.user), s.loop.nverts, s.loop.reversed, s.loop.originInside,
-   s.poly.kind, s.poly.nverts, s.poly.inverted⟩
+   s.poly.kind, s.poly.nverts, s.poly.inverted, s.tgt.map Target.geo⟩
 
 /-- answer of a *fresh* EdgeQuery with options `u` on a *freshly built* index over `shapes` -/
 def specAns (shapes : List Shape) (u : Opts) (k : QKind) : EQAns :=
@@ -409,8 +644,60 @@ def specAns (shapes : List Shape) (u : Opts) (k : QKind) : EQAns :=
   else ⟨k.report, if o.includeInteriors then some (liveIds shapes) else none, liveIds shapes,
         o.maxResults, o.distanceLimit, o.maxError⟩
 
+/-- answer of a fresh search with effective options `o` over a freshly built index holding `shapes` -/
+def searchAns (shapes : List Shape) (o : Opts) (rep : Report) : EQAns :=
+  if o.distanceLimit == Lim.zero then ⟨rep, none, [], o.maxResults, o.distanceLimit, o.maxError⟩
+  else ⟨rep, if o.includeInteriors then some (liveIds shapes) else none, liveIds shapes,
+        o.maxResults, o.distanceLimit, o.maxError⟩
+
+/-- the inner options of a FRESH index target configured like `tg`, in a call with effective outer options `o` -/
+def specInnerOpts (tg : TGeo) (o : Opts) : Opts :=
+  { Opts.default with includeInteriors := tg.ii, useBruteForce := tg.bf,
+                      maxError := o.maxError, distanceLimit := o.distanceLimit, maxResults := 1 }
+
+/-- answer of a fresh search with effective options `o` over a freshly built index holding `shapes`, asked
+    with a FRESH index target over a freshly built index holding `tg.shapes`, configured like `tg` -/
+def searchAnsT (shapes : List Shape) (o : Opts) (rep : Report) (tg : TGeo) : Answer :=
+  if o.distanceLimit == Lim.zero then ⟨outerAns rep none [] o, none⟩
+  else
+    let starts := liveIds tg.shapes
+    let interiors := if o.includeInteriors then some (if starts.isEmpty then [] else liveIds shapes) else none
+    let tstarts := if o.includeInteriors then some starts else none
+    let io := specInnerOpts tg o
+    let ia := searchAns tg.shapes io .single
+    if o.useBruteForce || numEdgesUpTo shapes (TKind.index.thr + 1) 0 < TKind.index.thr + 1 then
+      ⟨outerAns rep interiors (liveIds shapes) o, some ⟨tstarts, none, io, if hasEdges shapes then some ia else none⟩⟩
+    else if starts.isEmpty then
+      ⟨outerAns rep interiors [] o, some ⟨tstarts, some [], io, none⟩⟩
+    else
+      ⟨outerAns rep interiors (liveIds shapes) o, some ⟨tstarts, some starts, io, some ia⟩⟩
+
+/-- answer of a fresh EdgeQuery with options `u` … with a fresh index target like `tg` -/
+def specAnsT (shapes : List Shape) (u : Opts) (k : QKind) (tg : TGeo) : Answer :=
+  searchAnsT shapes (k.override u) k.report tg
+
 def spec (g : Geo) (op : Op) : Geo × Out :=
   match op with
+  | .newTarget k shapes => ({ g with tgt := some ⟨k, if k = .index then shapes else [], true, false⟩ }, .unit)
+  | .tadd sh =>
+    match g.tgt with
+    | some tg =>
+      if tg.kind = .index then ({ g with tgt := some { tg with shapes := tg.shapes ++ [sh] } }, .id tg.shapes.length)
+      else (g, .outOfContract)
+    | none => (g, .outOfContract)
+  | .tset ii bf =>
+    match g.tgt with
+    | some tg =>
+      if tg.kind = .index then ({ g with tgt := some { tg with ii := ii, bf := bf } }, .unit)
+      else (g, .outOfContract)
+    | none => (g, .outOfContract)
+  | .tcall k =>
+    match g.user, g.tgt with
+    | some u, some tg =>
+      match tg.kind with
+      | .index => (g, .eq (specAnsT g.shapes u k tg) u)
+      | _ => (g, .eq ⟨specAns g.shapes u k, none⟩ u)
+    | _, _ => (g, .outOfContract)
   | .add sh => ({ g with shapes := g.shapes ++ [sh], user := none }, .id g.shapes.length)
   | .reset => ({ g with shapes := [], user := none }, .unit)
   | .build => (g, .unit)
@@ -420,7 +707,7 @@ def spec (g : Geo) (op : Op) : Geo × Out :=
   | .call k _ =>
     match g.user with
     | none => (g, .outOfContract)
-    | some u => (g, .eq (specAns g.shapes u k) u)
+    | some u => (g, .eq ⟨specAns g.shapes u k, none⟩ u)
   | .invert => ({ g with loopReversed := !g.loopReversed, loopOrigin := !g.loopOrigin }, .unit)
   | .loopContains =>
     (g, .loop g.loopReversed g.loopOrigin g.loopReversed
